@@ -1578,6 +1578,23 @@ fn c15_step(b: &Built, g: &mut Inner, st: &mut State, from: usize, to: usize) {
             let d = format!("iterator returned {} items, sink received {} Data", items, data.len());
             report(g, st, &["C15"], "item-lost-or-duplicated", &op, pe, -1, d);
         }
+        // completion exactly once; nothing at all once disposed (also under late Pulls)
+        let n_term = evs(g, pe, Dir::Down, &[Kind::Terminate, Kind::Error]).len();
+        if n_term > 1 {
+            report(g, st, &["C15"], "completed-more-than-once", &op, pe, -1, format!("sink received {} terminals", n_term));
+        }
+        if ts.uterm_in != INF {
+            let late: Vec<usize> = g.edges[pe]
+                .events
+                .iter()
+                .map(|i| *i as usize)
+                .filter(|i| g.events[*i].dir == Dir::Down && g.events[*i].t_in > ts.uterm_in)
+                .collect();
+            if let Some(l) = late.first() {
+                let d = format!("{:?} delivered after the sink had disposed", g.events[*l].kind);
+                report(g, st, &["C15"], "delivery-after-disposal", &op, pe, *l as i32, d);
+            }
+        }
         // completion: exactly on the Pull that finds the iterator exhausted
         let exhausted: Vec<usize> = calls.iter().copied().filter(|c| g.events[*c].val.n == 0).collect();
         let term = ts.dterm_ev;
